@@ -1,7 +1,7 @@
 (* Extract/Driver.v — dispatch : sexp -> sexp, the single entry point of the extracted model *)
 From Coq Require Import List Bool Ascii String ZArith.
 From FM Require Import Base.Result Base.Str Base.Sexp Base.AstOp Model.Ast Model.FM Model.Ctc
-     Model.Queries Extract.Codec.
+     Model.Queries Model.Sem Model.Ops Extract.Codec.
 Import ListNotations.
 Open Scope string_scope.
 
@@ -84,6 +84,28 @@ Definition op_ctcq (n : node) : sexp :=
      e_tag "split" [e_result (e_list e_node) (split_asts n)];
      e_tag "clauses" [e_result (e_list (e_list e_ndata)) (get_clauses n)]].
 
+(* suite O: the tree-based operations *)
+Definition op_ops (m : fm) : sexp :=
+  e_tag "ops"
+    [e_tag "estimate" [e_z (estimate (root m))];
+     e_tag "core" [e_names (core_features (root m))];
+     e_tag "atomic" [SList (map (fun s => SList (map SStr s)) (atomic_sets m))];
+     e_tag "count_leafs" [e_z (count_leafs m)];
+     e_tag "leaf_features" [e_names (leaf_features m)];
+     e_tag "max_depth" [e_z (max_depth_tree m)];
+     e_tag "abf" [e_z (average_branching_factor m)];
+     e_tag "ancestors" [SList (map (fun fa => SList [SStr (name (fst fa)); e_names (snd fa)])
+                                   (ancestors_table m))];
+     e_tag "vps" [SList (map (fun fv => SList [SStr (name (fst fv)); e_names (snd fv)])
+                             (variation_points m))]].
+
+(* the semantics itself, for validation against the independent brute-force oracle *)
+Definition op_sem (m : fm) : sexp :=
+  e_tag "sem"
+    [e_tag "valid" [SList (map (fun s => SList (map SStr s)) (valid_selections m))];
+     e_tag "confs" [SList (map (fun b => SList (map SStr (selected_names (root m) b)))
+                               (confs (root m)))]].
+
 Definition bad (msg : string) : sexp := e_tag "bad-request" [SStr msg].
 
 Definition dispatch (req : sexp) : sexp :=
@@ -97,6 +119,16 @@ Definition dispatch (req : sexp) : sexp :=
       else if String.eqb op "ctcq" then
         match args with
         | [n] => match d_node n with Some n' => op_ctcq n' | None => bad "node" end
+        | _ => bad "arity"
+        end
+      else if String.eqb op "ops" then
+        match args with
+        | [m] => match d_fm m with Some m' => op_ops m' | None => bad "fm" end
+        | _ => bad "arity"
+        end
+      else if String.eqb op "sem" then
+        match args with
+        | [m] => match d_fm m with Some m' => op_sem m' | None => bad "fm" end
         | _ => bad "arity"
         end
       else if String.eqb op "echo_fm" then
